@@ -249,14 +249,21 @@ CalCandidate(d, i) ==
     /\ CalTypeOf(d, i) \in CalTypes
     /\ (HasAttr(d, i, CalAMin) \/ HasAttr(d, i, CalAMax))
 
-CalMinOf(d, i) == CalParseOpt(CalTypeOf(d, i), CalAttrOpt(d, i, CalAMin))
-CalMaxOf(d, i) == CalParseOpt(CalTypeOf(d, i), CalAttrOpt(d, i, CalAMax))
-CalValueOf(d, i) == CalParseOpt(CalTypeOf(d, i), CalAttrOpt(d, i, CalAValue))
+\* what the pseudo-classes look at, read off the element once: candidate, type keyword, the three
+\* attribute values as optional strings
+CalFacts(d, i) == [cand |-> CalCandidate(d, i), t |-> CalTypeOf(d, i), mn |-> CalAttrOpt(d, i, CalAMin),
+                   mx |-> CalAttrOpt(d, i, CalAMax), v |-> CalAttrOpt(d, i, CalAValue)]
 
-\* has range limitations: at least one valid bound
-CalLimited(d, i) == CalCandidate(d, i) /\ (CalMinOf(d, i).ok \/ CalMaxOf(d, i).ok)
-CalOutOfRange(d, i) == CalLimited(d, i) /\ CalOut(CalTypeOf(d, i), CalMinOf(d, i), CalMaxOf(d, i), CalValueOf(d, i))
-CalInRange(d, i) == CalLimited(d, i) /\ ~CalOutOfRange(d, i)
+\* "none": not a candidate, or no range limitation (no valid bound); otherwise "in" or "out"
+CalClassOf(f) ==
+    IF ~f.cand THEN "none"
+    ELSE LET mn == CalParseOpt(f.t, f.mn)
+             mx == CalParseOpt(f.t, f.mx)
+         IN IF ~(mn.ok \/ mx.ok) THEN "none"
+            ELSE IF CalOut(f.t, mn, mx, CalParseOpt(f.t, f.v)) THEN "out" ELSE "in"
+CalClass(d, i) == CalClassOf(CalFacts(d, i))
+CalOutOfRange(d, i) == CalClass(d, i) = "out"
+CalInRange(d, i) == CalClass(d, i) = "in"
 
 RangeHolds(d, s, i) == IF s.k = "out-of-range" THEN CalOutOfRange(d, i) ELSE CalInRange(d, i)
 
@@ -291,11 +298,12 @@ CalDecided(t, s) ==
       [] t = CalTLocal -> ~(CalParseLocal(s).ok /\ (\E k \in 1..Len(s) : s[k] = 32 \/ (s[k] = 84 /\ Len(s) - k > 5)))
       [] OTHER -> TRUE
 CalDecidedOpt(t, o) == Len(o) = 0 \/ CalDecided(t, o[1])
-CalGated(d, i) ==
-    CalCandidate(d, i) =>
-        /\ CalDecidedOpt(CalTypeOf(d, i), CalAttrOpt(d, i, CalAMin))
-        /\ CalDecidedOpt(CalTypeOf(d, i), CalAttrOpt(d, i, CalAMax))
-        /\ CalDecidedOpt(CalTypeOf(d, i), CalAttrOpt(d, i, CalAValue))
+\*  - XML / XHTML documents: whether the type keyword is still ASCII case-insensitive there (HTML: it is
+\*    an enumerated attribute; Selectors: attribute values compare exactly outside HTML documents)
+CalTypeSpellingDecided(d, i) ==
+    (d.xml /\ HasAttr(d, i, CalAType)) => AttrVal(d, i, CalAType) = Lower(AttrVal(d, i, CalAType))
+CalGatedOf(f) == f.cand => (CalDecidedOpt(f.t, f.mn) /\ CalDecidedOpt(f.t, f.mx) /\ CalDecidedOpt(f.t, f.v))
+CalGated(d, i) == (IsEl(d, i) => CalTypeSpellingDecided(d, i)) /\ CalGatedOf(CalFacts(d, i))
 
 \* ---------------------------------------------------------------------------
 \* design-level theorems (each is an INVARIANT / ASSUME of MC_C18_thm; Y, strings are supplied there)
@@ -335,10 +343,11 @@ CalThmOrder(t, S) ==
             /\ (CalCmp(t, pa, pb) = 0 <=> pa = pb)
             /\ \A c \in S : LET pc == CalParse(t, c) IN
                   (pc.ok /\ CalCmp(t, pa, pb) <= 0 /\ CalCmp(t, pb, pc) <= 0) => CalCmp(t, pa, pc) <= 0
-\* an element is never both, an invalid or missing value is never out of range, and without a
-\* valid bound an element is neither
+\* an invalid or missing value is never out of range, and an element is in or out of range exactly
+\* when it is a candidate with a valid bound (never both: CalClass is a function)
 CalThmExclusive(d, i) ==
-    /\ ~(CalInRange(d, i) /\ CalOutOfRange(d, i))
-    /\ (~CalValueOf(d, i).ok => ~CalOutOfRange(d, i))
-    /\ ((CalInRange(d, i) \/ CalOutOfRange(d, i)) <=> CalLimited(d, i))
+    LET f == CalFacts(d, i)
+        c == CalClassOf(f) IN
+    /\ (c = "out" => CalParseOpt(f.t, f.v).ok)
+    /\ (c # "none" <=> (f.cand /\ (CalParseOpt(f.t, f.mn).ok \/ CalParseOpt(f.t, f.mx).ok)))
 =============================================================================
